@@ -15,19 +15,22 @@ import (
 
 // BranchCase: one relative branch (or far jump) in a micro-program.
 type BranchCase struct {
-	Mode     int    `json:"mode"`
-	Org      int64  `json:"org"`
-	Mn       string `json:"mn"`
-	Kind     string `json:"kind"` // fwd | bwd | num | far | chain | dollar ($+Rel as the target)
-	Rel      int64  `json:"rel,omitempty"`
-	Widen    bool   `json:"widen,omitempty"` // a Jcc over 200 reserved bytes in front: the program needs a second assembly round
-	Filler   int    `json:"filler"`          // bytes between branch and target (fwd: after the branch; bwd: between target and branch)
-	Pad      int    `json:"pad"`             // NOPs before everything
-	Trailing bool   `json:"trailing"`
-	Target   int64  `json:"target,omitempty"` // num
-	Seg      int64  `json:"seg,omitempty"`    // far
-	Off      int64  `json:"off,omitempty"`
-	Dword    bool   `json:"dword,omitempty"`
+	Mode  int    `json:"mode"`
+	Org   int64  `json:"org"`
+	Mn    string `json:"mn"`
+	Kind  string `json:"kind"` // fwd | bwd | num | far | chain | dollar ($+Rel as the target)
+	Rel   int64  `json:"rel,omitempty"`
+	Widen bool   `json:"widen,omitempty"` // a Jcc over 200 reserved bytes in front: the program needs a second assembly round
+	// Tail32: the program (written without any directive, i.e. in the default 16-bit mode) ends with "[BITS 32] / NOP":
+	// a later assembly round must start again in the default mode
+	Tail32   bool  `json:"tail32,omitempty"`
+	Filler   int   `json:"filler"` // bytes between branch and target (fwd: after the branch; bwd: between target and branch)
+	Pad      int   `json:"pad"`    // NOPs before everything
+	Trailing bool  `json:"trailing"`
+	Target   int64 `json:"target,omitempty"` // num
+	Seg      int64 `json:"seg,omitempty"`    // far
+	Off      int64 `json:"off,omitempty"`
+	Dword    bool  `json:"dword,omitempty"`
 	// chain: several forward branches in a row whose spans nest; Gaps[i] bytes are reserved before target i
 	Chain []string `json:"chain,omitempty"` // mnemonics
 	Gaps  []int    `json:"gaps,omitempty"`
@@ -93,6 +96,9 @@ func (c BranchCase) source() (string, []byte) {
 	if c.Trailing {
 		fmt.Fprintf(&sb, "\tNOP\nqafter:\n\t%s\n\tDD qafter\n", mT)
 	}
+	if c.Tail32 && c.Mode == 0 {
+		sb.WriteString("[BITS 32]\n\tNOP\n")
+	}
 	return sb.String(), nil
 }
 
@@ -124,11 +130,17 @@ func checkC04(c BranchCase) Verdict {
 	if c.Widen {
 		v.Class += "|widen"
 	}
+	if c.Tail32 && c.Mode == 0 {
+		v.Class += "|tail32"
+	}
 	hdr := ""
 	if c.Org >= 0 {
 		hdr = fmt.Sprintf("\tORG 0x%x\n", c.Org)
 	}
 	hdr += sem.Header(c.Mode)
+	if c.Tail32 && c.Mode == 0 {
+		hdr += "[BITS 32]\n"
+	}
 	r := asm.Assemble(src)
 	base := asm.Baseline(hdr)
 	if asm.Diagnosed(r, base) {
@@ -203,7 +215,11 @@ func checkC04(c BranchCase) Verdict {
 		if m := sem.CompareInst(st, mode, inst); m != nil {
 			return fail("far:"+m.Kind, "far jump %d:%#x decodes as %q — %s", c.Seg, c.Off, x86asm.IntelSyntax(inst, 0, nil), m)
 		}
-		if at+inst.Len != len(out) && !c.Trailing {
+		tail := 0
+		if c.Tail32 && c.Mode == 0 {
+			tail = 1 // the NOP of the trailing 32-bit group
+		}
+		if at+inst.Len+tail != len(out) && !c.Trailing {
 			return fail("far:length", "far jump followed by %d unexpected bytes", len(out)-at-inst.Len)
 		}
 		v.NonTrivial = true
@@ -320,7 +336,7 @@ var c04Fillers = func() []int {
 
 var propC04 = &Prop[BranchCase]{
 	ID:   "C04",
-	Rule: "micro-programs 'pad; Jxx L; RESB d; L:' and the backward mirror for the 31 jump mnemonics and CALL, every d in 0..140 and around 32768, numeric targets, targets written relative to $ ($, $+k, $-k), far JMP seg:off with boundary values, ORG from the quantifier's set, BITS none/16/32, with and without a further label after the branch, with and without an earlier out-of-reach Jcc that forces a second assembly round; oracle: decoded (next + rel) = origin + marker offset of the target, decoded condition = canonical condition of the mnemonic, filler intact; non-trivial = accepted; distinct by source text",
+	Rule: "micro-programs 'pad; Jxx L; RESB d; L:' and the backward mirror for the 31 jump mnemonics and CALL, every d in 0..140 and around 32768, numeric targets, targets written relative to $ ($, $+k, $-k), far JMP seg:off with boundary values, ORG from the quantifier's set, BITS none/16/32, with and without a further label after the branch, with and without an earlier out-of-reach Jcc that forces a second assembly round, default-mode programs also with a trailing [BITS 32] group; oracle: decoded (next + rel) = origin + marker offset of the target, decoded condition = canonical condition of the mnemonic, filler intact; non-trivial = accepted; distinct by source text",
 	Gen: func(t *rapid.T) BranchCase {
 		c := BranchCase{
 			Mode:     rapid.SampledFrom([]int{0, 16, 32}).Draw(t, "mode"),
@@ -362,6 +378,7 @@ var propC04 = &Prop[BranchCase]{
 			c.Rel = rapid.SampledFrom([]int64{0, 1, 2, 3, 5, 6, -1, -2, -6, 126, 127, 128, 129, 130, 131, -125, -126, -127, -128, -129, 200, -200, 0x1000, -0x1000}).Draw(t, "rel")
 		}
 		c.Widen = rapid.IntRange(0, 3).Draw(t, "widen") == 0
+		c.Tail32 = c.Mode == 0 && rapid.IntRange(0, 2).Draw(t, "tail32") == 0
 		if c.Kind == "far" {
 			c.Mn = "JMP"
 			c.Seg = rapid.SampledFrom([]int64{0, 8, 16, 0x28, 0x7fff, 0xffff}).Draw(t, "seg")
